@@ -280,8 +280,8 @@ WriteClauses(cur, e) ==
      <<"C12.functional." \o fmt, e.out = "value" => \A i \in same : cur.wmemo[i].digest = R.digest>>,
      <<p \o ".write.total",   frag => e.out = "value">>,
      \* cycle rule: from the second write on the text no longer changes
-     <<p \o ".cycle.text",    frag /\ e.out = "value" /\ k >= 3 /\ cur.fmt = fmt => R.digest = cur.wd[k - 1]>>,
-     <<p \o ".cycle.text1",   frag /\ e.out = "value" /\ k = 2 /\ cur.fmt = fmt /\ SameModel(cur.m1, cur.m0)
+     <<p \o ".cycle.text",    frag /\ e.out = "value" /\ k >= 3 /\ cur.fmt = fmt /\ cur.gen = k - 1 => R.digest = cur.wd[k - 1]>>,
+     <<p \o ".cycle.text1",   frag /\ e.out = "value" /\ k = 2 /\ cur.fmt = fmt /\ cur.gen = 1 /\ SameModel(cur.m1, cur.m0)
                                  => R.digest = cur.wd[1]>> >>
 
 ReadClauses(cur, e) ==
@@ -318,6 +318,8 @@ Clauses(cur, e) ==
     [] e.a = "Compare"        -> CompareClauses(cur, e)
     [] e.a = "Write"          -> WriteClauses(cur, e)
     [] e.a = "Read"           -> ReadClauses(cur, e)
+    [] e.a = "ReadBack"       -> << <<"C12.utf8.names." \o e.args.fmt,
+                                      e.out = "value" => (e.anom = <<>> /\ Names(e.post) = Names(cur.model))>> >>
     [] e.a = "ParseJson"      -> << <<"C05.parsejson.total", InFrag("json", cur.m0) => e.out = "value">> >>
     [] e.a = "Other"          -> << <<"T.other", TRUE>> >>
     [] OTHER                  -> << <<"T.unknown-action", FALSE>> >>
